@@ -566,7 +566,7 @@ func main() {
 			packed = append(packed, u)
 		}
 	}
-	casesPer := 20
+	casesPer := 10
 	type prog struct{ us []unitRef }
 	var programs []prog
 	for lo := 0; lo < len(packed); lo += casesPer {
@@ -585,8 +585,14 @@ func main() {
 	}
 	cres := make([]jobRes, len(cjobs))
 	runJobs(r, pool, cjobs, cres)
-	// programs whose comparison fails as a whole are re-run one item per program
+	// a program whose comparison fails as a whole (a front end rejects it, the back end fails, the
+	// declarations differ) is run again one case per program, and a case that still fails as a whole
+	// one item per program
 	var singles []unitRef
+	isWhole := func(res jobRes) bool {
+		return res.Wa.LoadErr != "" || res.Wz.LoadErr != "" || res.Wa.CompileErr != "" || res.Wz.CompileErr != "" || !sameTypes(res.Wa.Types, res.Wz.Types)
+	}
+	var retryUnits []unitRef
 	for pi, p := range programs {
 		res := cres[pi]
 		if res.Err != "" {
@@ -597,18 +603,37 @@ func main() {
 			r.HarnessError("corpus program %d: unsupported construct after classification: %s", pi, res.Unsupported)
 			continue
 		}
-		whole := res.Wa.LoadErr != "" || res.Wz.LoadErr != "" || res.Wa.CompileErr != "" || res.Wz.CompileErr != "" || !sameTypes(res.Wa.Types, res.Wz.Types)
-		if whole {
-			for _, u := range p.us {
-				for _, ii := range u.items {
-					singles = append(singles, unitRef{u.fam, u.g, []int{ii}})
-				}
-			}
+		if isWhole(res) {
+			retryUnits = append(retryUnits, p.us...)
 			continue
 		}
 		for ci, u := range p.us {
 			// items after an item in which both sides stop are run again on their own
 			for _, ii := range compareCase(r, u, res, ci) {
+				singles = append(singles, unitRef{u.fam, u.g, []int{ii}})
+			}
+		}
+	}
+	if len(retryUnits) > 0 && !r.Expired() {
+		ujobs := make([]job, len(retryUnits))
+		for i, u := range retryUnits {
+			ujobs[i] = mk([]unitRef{u})
+		}
+		ures := make([]jobRes, len(ujobs))
+		runJobs(r, pool, ujobs, ures)
+		for i, u := range retryUnits {
+			res := ures[i]
+			if res.Err != "" {
+				r.HarnessError("corpus case %s: %s", u.g.Name, res.Err)
+				continue
+			}
+			if isWhole(res) || res.Unsupported != "" {
+				for _, ii := range u.items {
+					singles = append(singles, unitRef{u.fam, u.g, []int{ii}})
+				}
+				continue
+			}
+			for _, ii := range compareCase(r, u, res, 0) {
 				singles = append(singles, unitRef{u.fam, u.g, []int{ii}})
 			}
 		}
